@@ -5,7 +5,7 @@ import copy
 import re
 from typing import Collection, Iterable
 
-from pyrefact import core, parsing, processing
+from pyrefact import constants, core, parsing, processing, tracing
 
 
 @processing.fix
@@ -131,7 +131,15 @@ def move_staticmethod_static_scope(source: str, preserve: Collection[str]) -> st
             else:
                 attributes_to_preserve.add(node.value.id)
 
-    static_names = {funcdef.name for funcdef in parsing.iter_funcdefs(root)} | preserve
+    # The moved function must not take a name that means something else anywhere in the module
+    static_names = (
+        {funcdef.name for funcdef in parsing.iter_funcdefs(root)}
+        | set(preserve)
+        | {node.id for node in core.walk(root, ast.Name)}
+        | tracing.get_defined_names(root)
+        | {name.split(".")[0] for name in tracing.get_imported_names(root)}
+        | constants.BUILTIN_FUNCTIONS
+    )
     name_replacements = {}
 
     replacements = {}
